@@ -64,6 +64,7 @@ class RealWorld:
         self.fpr = {}            # fingerprint -> label
         self.seq = {}            # signature octets -> order of first appearance
         self.nseq = 0
+        self.getuid_fail = None
 
     # ---- helpers
     def reg(self, k, label):
@@ -82,10 +83,17 @@ class RealWorld:
         return int(u.name[3:]) if u.is_uid else int.from_bytes(bytes(u.image)[4:6], 'big')
 
     def find_uid(self, k, isuid, cid):
+        found = None
         for u in k._uids:
             if bool(u.is_uid) == bool(int(isuid)) and self.cid(u) == int(cid):
-                return u
-        return None
+                found = u
+                break
+        if int(isuid) == 1:
+            # PGPKey.get_uid: the first identity one of whose fields EQUALS the search string
+            got = k.get_uid('uid%d' % int(cid))
+            if got is not found:
+                self.getuid_fail = 'get_uid(%r) returned %s instead of %s' % ('uid%d' % int(cid), None if got is None else got.name, None if found is None else found.name)
+        return found
 
     def prefs(self, info, prim):
         from pgpy.constants import KeyFlags as F, HashAlgorithm as H, SymmetricKeyAlgorithm as S, CompressionAlgorithm as Z
@@ -130,9 +138,16 @@ class RealWorld:
         self.reg(k, int(label))
         self.objs.append({'k': k, 'cm': None})
 
+    @staticmethod
+    def uid_string(c):
+        c = int(c)
+        return 'uid%d' % c + (' (c%d)' % c if c % 2 else '') + (' <uid%d@example.org>' % c if c % 3 == 0 or c > 10 else '')
+
     def new_uid(self, isuid, cid):
         if isuid == '1':
-            return self.pgpy.PGPUID.new('uid%d' % int(cid))
+            # 'uid1' is a proper substring of 'uid11' / 'uid12' and of the e-mail fields: PGPKey.get_uid must match whole fields
+            c = int(cid)
+            return self.pgpy.PGPUID.new('uid%d' % c, comment=('c%d' % c if c % 2 else ''), email=('uid%d@example.org' % c if c % 3 == 0 or c > 10 else ''))
         return self.pgpy.PGPUID.new(bytearray(b'\xff\xd8\xff\xe0' + int(cid).to_bytes(2, 'big') + b'JFIF' + bytes(6)))
 
     def op_adduid(self, k, isuid, cid, info, prim, t):
@@ -156,6 +171,13 @@ class RealWorld:
         if u is None: return 'skip'
         kw = {} if exp == 'n' else {'exportable': exp == '1'}
         u |= c['k'].certify(u, created=self.t(t), hash=H.SHA256, **kw)
+
+    def op_certkey(self, by, k, exp, t):
+        from pgpy.constants import HashAlgorithm as H
+        c, o = self.obj(by), self.obj(k)
+        if c is None or o is None: return 'skip'
+        kw = {} if exp == 'n' else {'exportable': exp == '1'}
+        o['k'] |= c['k'].certify(o['k'], created=self.t(t), hash=H.SHA256, **kw)
 
     def op_revuid(self, k, isuid, cid, t):
         from pgpy.constants import HashAlgorithm as H
@@ -335,6 +357,29 @@ class RealWorld:
     def names(self, k):
         return [(bool(u.is_uid), self.cid(u), [bytes(s.__bytearray__()) for s in u._signatures if s.exportable]) for u in k._uids]
 
+    @staticmethod
+    def keysigs(k):
+        """exportable signature packets attached to the key itself / to each subkey"""
+        def tl(kk):
+            return [bytes(s.__bytearray__()) for s in kk._signatures if not s.embedded and s.exportable]
+        return (tl(k), [tl(sk) for sk in k._children.values()])
+
+    def expected_packets(self, k):
+        """what bytes(key) must consist of: key packet, its exportable signature packets, then every user id and every subkey with theirs"""
+        ks, subs = self.keysigs(k)
+        out = [bytes(k._key.__bytearray__())] + ks
+        for u in k._uids:
+            out += [bytes(u._uid.__bytearray__())] + [bytes(s.__bytearray__()) for s in u._signatures if s.exportable]
+        for sk, ss in zip(k._children.values(), subs):
+            out += [bytes(sk._key.__bytearray__())] + ss
+        return out
+
+    def export_ok(self, k):
+        try:
+            return K14.split_packets(bytes(k)) == self.expected_packets(k)
+        except (ValueError, IndexError):
+            return False
+
     def oracle(self, light=False, only=None):
         """light: verification on the object and on the re-import of bytes(key) only (no twin / armored / public re-imports);
         only: restrict to these object indices (the objects the last operation touched)"""
@@ -355,12 +400,15 @@ class RealWorld:
                        or [self.lab(s) for s in k._children.values()] != [self.lab(s) for s in pub._children.values()] \
                        or [bytes(s.__bytearray__()) for s in k._signatures] != [bytes(s.__bytearray__()) for s in pub._signatures]:
                         fails.append('twin of object %d does not reflect the same state' % i)
+                if not self.export_ok(k):
+                    fails.append('bytes(key) of object %d is not: key, its exportable signatures, each user id / subkey with its exportable signatures' % i)
                 for what, blob in ((('bytes(key)', bytes(k)),) if light else (('bytes(key)', bytes(k)), ('str(key)', str(k)), ('bytes(key.pubkey)', bytes(pub)))):
                     r = self.pgpy.PGPKey.from_blob(blob)[0]
                     self.verify_all(r, 're-import of %s of object %d' % (what, i), fails)
                     nonexp_self = any((not s.exportable) and s.signer == k.fingerprint.keyid for u in k._uids for s in u._signatures)
                     a, b = self.names(r), self.names(k)
-                    if ((sorted(a) != sorted(b)) if nonexp_self else (a != b)) or [self.lab(s) for s in r._children.values()] != [self.lab(s) for s in k._children.values()]:
+                    if ((sorted(a) != sorted(b)) if nonexp_self else (a != b)) or [self.lab(s) for s in r._children.values()] != [self.lab(s) for s in k._children.values()] \
+                       or self.keysigs(r) != self.keysigs(k):
                         fails.append('re-import of %s of object %d: identities / exportable signatures / subkeys differ' % (what, i))
                 # most recent self-signature wins; later-added of two same-second signatures wins
                 kid = k.fingerprint.keyid
@@ -425,6 +473,20 @@ def strip_model(s):
 
 
 def run_history(ctx, pgpy, d, cmds, suite, check_from=0, oracle_every=True, case_extra=None, light=False):
+    """one history; an exception in the comparison / oracle code is a failure of THIS history (never a harness crash)"""
+    try:
+        return run_history_(ctx, pgpy, d, cmds, suite, check_from, oracle_every, case_extra, light)
+    except Exception as ex:
+        from .common import DriverError
+        if isinstance(ex, DriverError):
+            raise
+        case = {'suite': suite, 'cmds': [list(c) for c in cmds]}
+        if case_extra: case.update(case_extra)
+        ctx.fail(suite, 'exception while examining the keys: %s: %s' % (type(ex).__name__, str(ex)[:120]), case)
+        return False
+
+
+def run_history_(ctx, pgpy, d, cmds, suite, check_from=0, oracle_every=True, case_extra=None, light=False):
     """execute one history on PGPy and on the model; compare after every step >= check_from"""
     rw = RealWorld(pgpy)
     d.call('reset')
@@ -439,6 +501,9 @@ def run_history(ctx, pgpy, d, cmds, suite, check_from=0, oracle_every=True, case
                 ndel_before = sum(1 for u in rw.obj(cmd[1])['k'].userids if u.name == 'uid%d' % int(cmd[2]))
         res = rw.do(cmd)
         m = d.call(*cmd)
+        if rw.getuid_fail is not None:
+            ctx.fail(suite, 'PGPKey.get_uid at step %d (%s): %s' % (n, ' '.join(cmd), rw.getuid_fail), dict(case, step=n))
+            return False
         if n < check_from:
             continue
         rw.note_new_sigs()
@@ -466,11 +531,12 @@ def run_history(ctx, pgpy, d, cmds, suite, check_from=0, oracle_every=True, case
         if cmd[0] == 'deluid' and res == 'ok':
             k = rw.objs[int(cmd[1])]['k']
             name = ('uid%d' % int(cmd[2])).encode()
+            body = RealWorld.uid_string(cmd[2]).encode()
             want_n = ndel_before - 1
             with warnings.catch_warnings():
                 warnings.simplefilter('ignore')
                 got = [sum(1 for u in k.userids if u.name == name.decode()),
-                       sum(1 for p in K14.split_packets(bytes(k)) if p[0] in (0xcd, 0xb4) and p[2:] == name),
+                       sum(1 for p in K14.split_packets(bytes(k)) if p[0] in (0xcd, 0xb4) and p[2:] == body),
                        sum(1 for u in pgpy.PGPKey.from_blob(bytes(k))[0].userids if u.name == name.decode()),
                        sum(1 for u in k.pubkey.userids if u.name == name.decode())]
             if got != [want_n] * 4:
@@ -490,7 +556,7 @@ PREAMBLE = [('create', '0'), ('create', '1'), ('adduid', '0', '1', '1', P1, '1',
 
 def alphabet(size):
     """operation templates; 'T' is replaced by the time of the step, 'L' by a fresh subkey label.
-    size: 'core' (10 instances) < 'small' (18) < 'full' (32)"""
+    size: 'core' (10 instances) < 'small' (20) < 'full' (38)"""
     core = [
         ('adduid', '0', '1', '3', P3, '1', 'T'),
         ('recert', '0', '1', '1', P2, '0', 'T'),
@@ -512,6 +578,8 @@ def alphabet(size):
         ('revoker', '0', '1', 'T'),
         ('publish', '0'),
         ('certify', '1', '2', '1', '1', '1', 'T'),     # certify the published copy (object 2, if there is one)
+        ('adduid', '0', '1', '11', P1, '1', 'T'),      # 'uid1' is a proper substring of this identity, which sorts first (primary, newer)
+        ('certkey', '1', '0', '0', 'T'),               # third-party direct-key signature, non-exportable
     ]
     full = small + [
         ('revuid', '0', '1', '3', 'T'),
@@ -524,6 +592,8 @@ def alphabet(size):
         ('deluid', '2', '1'), ('copy', '2'), ('reimport', '2'),
         ('adduid', '0', '1', '3', P2, '0', 'T'),       # the same identity a second time
         ('revkey', '1', 'T'),
+        ('certkey', '1', '0', '1', 'T'), ('certkey', '0', '0', 'n', 'T'), ('certkey', '1', '2', '0', 'T'),
+        ('deluid', '0', '11'),
     ]
     return {'core': core, 'small': small, 'full': full}[size]
 
@@ -554,10 +624,10 @@ def random_walk(rng, n):
         if rng.random() < 0.55:
             t += rng.choice((0, 0, 1, 1, 2, -1 if rng.random() < 0.1 else 1))
         k = rng.choice((0, 0, 0, 1)) if nobj == 2 else rng.choice((0, 0, 0, 1, 2, nobj - 1))
-        pool = cids.get(0, [1]) + [1, 2, 5]
+        pool = cids.get(0, [1]) + [1, 2, 5, 11]
         c = rng.choice(pool)
         isu = '0' if c >= 100 else '1'
-        op = rng.choice(('adduid', 'adduid', 'recert', 'recert', 'certify', 'certify', 'revuid', 'addsub', 'revsub', 'revkey', 'revoker',
+        op = rng.choice(('adduid', 'adduid', 'recert', 'recert', 'certify', 'certify', 'certkey', 'revuid', 'addsub', 'revsub', 'revkey', 'revoker',
                          'deluid', 'protect', 'unlock', 'lock', 'copy', 'reimport', 'publish'))
         P = rng.choice((P1, P2, P3, P4))
         if op == 'adduid':
@@ -565,6 +635,8 @@ def random_walk(rng, n):
                 ncid += 1; cid, isu2 = 100 + ncid, '0'
             elif rng.random() < 0.15:
                 cid, isu2 = c, isu
+            elif rng.random() < 0.2:
+                cid, isu2 = rng.choice((11, 12, 21)), '1'          # names that contain 'uid1' / 'uid2' as a proper substring
             else:
                 ncid += 1; cid, isu2 = ncid, '1'
             cids.setdefault(0, []).append(cid)
@@ -573,6 +645,8 @@ def random_walk(rng, n):
             cmds.append(('recert', str(k), isu, str(c), P, rng.choice('001'), str(t)))
         elif op == 'certify':
             cmds.append(('certify', str(rng.choice((0, 1, 1))), str(k), isu, str(c), rng.choice('nnn01'), str(t)))
+        elif op == 'certkey':
+            cmds.append(('certkey', str(rng.choice((0, 1, 1))), str(k), rng.choice('n0011'), str(t)))
         elif op == 'revuid':
             if rng.random() < 0.5: cmds.append(('revuid', str(k), isu, str(c), str(t)))
         elif op == 'addsub':
@@ -615,7 +689,7 @@ def run(ctx):
         regressions(ctx, pgpy, d)
         # exhaustive: every history of depth <= D over the alphabet after the preamble
         plan = [('full', 1), ('small', 2), ('core', 3)] if ctx.quick else [('full', 1), ('full', 2), ('small', 3), ('core', 4)]
-        budget = ctx.n(30.0, 380.0)
+        budget = ctx.n(30.0, 420.0)
         import time
         t0 = time.time()
         for size, depth in plan:
@@ -636,7 +710,7 @@ def run(ctx):
             else:
                 ctx.notes.append('depth %d: %d of %d histories within the time budget (lexicographic order)' % (depth, done, total))
         # random deep walks
-        for i in range(ctx.n(12, 120)):
+        for i in range(ctx.n(12, 90)):
             cmds = random_walk(ctx.rng, 30)
             ctx.case('random-walk-30', tuple(cmds), sample={'cmds': [' '.join(c) for c in cmds[pre:pre + 10]]})
             run_history(ctx, pgpy, d, cmds, 'random-walk-30', check_from=pre, oracle_every=(not ctx.quick and i % 4 == 0))
@@ -646,6 +720,12 @@ def run(ctx):
 
 
 CORPUS = [
+    ('substring-names', PREAMBLE + [('adduid', '0', '1', '2', P2, '0', '2'), ('adduid', '0', '1', '11', P1, '1', '3'), ('adduid', '0', '1', '21', P3, '0', '3'),
+                                    ('recert', '0', '1', '1', P2, '0', '4'), ('revuid', '0', '1', '2', '4'), ('deluid', '0', '1'), ('deluid', '0', '2'),
+                                    ('adduid', '0', '1', '1', P2, '0', '5'), ('deluid', '0', '11'), ('deluid', '0', '1')]),
+    ('direct-key-signatures', PREAMBLE + [('certkey', '1', '0', '0', '2'), ('certkey', '1', '0', '1', '2'), ('certkey', '1', '0', 'n', '3'), ('certkey', '0', '0', '0', '3'),
+                                          ('addsub', '0', '10', '1', '2', '3'), ('publish', '0'), ('certkey', '1', '2', '0', '4'), ('copy', '0'), ('reimport', '0'),
+                                          ('reimport', '2')]),
     ('same-second-selfsigs', PREAMBLE + [('recert', '0', '1', '1', P2, '0', '5'), ('recert', '0', '1', '1', P3, '0', '5'), ('copy', '0'), ('reimport', '0')]),
     ('revoke-then-recertify', PREAMBLE + [('revuid', '0', '1', '1', '3'), ('recert', '0', '1', '1', P2, '1', '3'), ('recert', '0', '1', '1', P1, '0', '2'), ('publish', '0')]),
     ('three-primaries-revoke-middle', PREAMBLE + [('adduid', '0', '1', '2', P1, '1', '2'), ('adduid', '0', '1', '3', P1, '1', '3'), ('revuid', '0', '1', '2', '10'),
@@ -705,15 +785,26 @@ def history_keys_for_c14(ctx, n):
 def c14_history_case(ctx, pgpy, cmds):
     suite = 'history'
     case = {'suite': suite, 'cmds': [list(c) for c in cmds]}
+    try:
+        c14_history_case_(ctx, pgpy, cmds, suite, case)
+    except Exception as ex:
+        ctx.fail(suite, 'exception while examining the keys: %s: %s' % (type(ex).__name__, str(ex)[:120]), case)
+
+
+def c14_history_case_(ctx, pgpy, cmds, suite, case):
     rw = RealWorld(pgpy)
     for c in cmds:
         rw.do(c)
     with warnings.catch_warnings():
         warnings.simplefilter('ignore')
         fails = []
+        if rw.getuid_fail:
+            fails.append('PGPKey.get_uid: ' + rw.getuid_fail)
         for i, o in enumerate(rw.objs):
             k = o['k']
             b1 = bytes(k)
+            if not rw.export_ok(k):
+                fails.append('object %d: bytes(key) is not key + exportable signatures, user ids and subkeys with their exportable signatures' % i)
             if bytes(copy.copy(k)) != b1:
                 fails.append('object %d: a copy does not export identically' % i)
             kid = k.fingerprint.keyid
@@ -727,6 +818,8 @@ def c14_history_case(ctx, pgpy, cmds):
                 if [(rw.lab(s), [bytes(x.__bytearray__()) for x in s._signatures if not x.embedded and x.exportable]) for s in k._children.values()] != \
                    [(rw.lab(s), [bytes(x.__bytearray__()) for x in s._signatures if not x.embedded]) for s in k2._children.values()]:
                     fails.append('object %d (%s): subkeys / binding signatures differ after re-import' % (i, what))
+                if rw.keysigs(k2)[0] != rw.keysigs(k)[0]:
+                    fails.append('object %d (%s): signatures on the key itself differ after re-import' % (i, what))
                 if not nonexp_self and bytes(k2) != b1:
                     fails.append('object %d (%s): bytes(import(export)) differs' % (i, what))
                 if bytes(pgpy.PGPKey.from_blob(bytes(k2))[0]) != bytes(k2):
